@@ -1929,6 +1929,12 @@ func replayC03(c *lib.Ctx, r *run, e *env) error {
 		if as == nil {
 			return fmt.Errorf("unknown asset %s", in.Asset)
 		}
+		if in.After != "" && in.After != "nothing" && in.After != "clear" {
+			// a failure that depends on what the server was asked before: replay the history clear, <configuration>, clear
+			r.historyRun(as, in.N-in.StartNr, []string{in.After})
+			fmt.Printf("replay C03: history clear, %s, clear for segment %d of %s\n", in.After, in.N, in.Asset)
+			return nil
+		}
 		if strings.HasSuffix(in.Mode, "-none") {
 			r.fetchNone(as, in, "replayed request for something that is no segment")
 			resp := as.ls.GetRaw(in.AudioURL)
